@@ -64,6 +64,20 @@ CLAIMED = {
         technique="Lean 4 proof (loop invariant + PSD Schur complement + Cauchy-Schwarz) + exact rational correspondence",
         note=TB + " sqrt, IEEE rounding, lax.scan/jvp and pyscf integrals are outside the model; pivot/threshold near-ties are skipped by exact margin and counted.",
     ),
+    "C08": dict(
+        category="proof",
+        text=("The sampler methods and the driver loop are translated from the Python AST into programs over the abstract AFQMC machine on "
+              "every run; a verified decision procedure (check_sound, by induction over programs and scan iterations) shows that, for every "
+              "implementation of the operations, every number of steps/blocks/iterations, every option branch and every initial state, each "
+              "propagate is entered with overlaps = map overlap walkers; the generated file re-proves `check p stale` for each entry point and "
+              "the driver by `decide`.  The 'equivalently' clause is the theorem explicit_equiv (run = run with an explicit refresh after every "
+              "walker modification).  The translator is validated against the dynamic operation trace of the real code (eager execution with "
+              "recording wrappers) and the property is measured directly: coherence residual at every propagate entry, and jitted sampler vs "
+              "explicit-refresh replay.  When an obligation breaks, complete driver runs over 2-3 fake MPI ranks search for an incoherent entry."),
+        design_ref="DESIGN.md §5/C08",
+        technique="Lean 4 proof (sound abstract interpretation over a generated program) + AST translator + dynamic trace validation",
+        note=TB + " lax.scan/jit/checkpoint control-flow semantics and eager = jitted operation order are trusted; real MPI replaced by harness/fakempi.py.",
+    ),
 }
 
 NOT_YET = {}
